@@ -328,3 +328,161 @@ Proof.
     pose proof (wf_gen _ W _ _ Hn). unfold g. repeat case_decide; done.
   - intros r H. destruct (wf_root _ W _ H) as [n Hn]. exists (g r n). by apply Hlk2.
 Qed.
+
+Lemma with_watchees_ldel_idemp i x : with_watchees (ldel i) (with_watchees (ldel i) x) = with_watchees (ldel i) x.
+Proof. destruct x; unfold with_watchees; simpl; f_equal; apply ldel_idemp. Qed.
+Lemma with_watchers_ldel_idemp i x : with_watchers (ldel i) (with_watchers (ldel i) x) = with_watchers (ldel i) x.
+Proof. destruct x; unfold with_watchers; simpl; f_equal; apply ldel_idemp. Qed.
+
+Lemma wf_delete_one t i : tree_wf t → tree_wf (delete_one t i).
+Proof.
+  intros W. unfold delete_one. destruct (t_pids t !! i) as [n|] eqn:Ei; [|done].
+  set (m1 := foldr (λ w m, alter (with_watchees (ldel i)) w m) (t_pids t) (n_watchers n)).
+  set (m2 := foldr (λ e m, alter (with_watchers (ldel i)) e m) m1 (n_watchees n)).
+  set (pb := match n_parent n with Some (p, g0) => if live_in m2 (p, g0) then Some p else None | None => None end).
+  set (m3 := match n_parent n with
+             | Some (p, g0) => if live_in m2 (p, g0) then alter (λ np, with_watchees (ldel i) (with_desc (ddel i) np)) p m2 else m2
+             | None => m2 end).
+  set (g := λ (k : nat) (x : node),
+     (if decide (Some k = pb) then (λ np, with_watchees (ldel i) (with_desc (ddel i) np)) else (λ x : node, x))
+       ((if decide (k ∈ n_watchees n) then with_watchers (ldel i) else (λ x : node, x))
+          ((if decide (k ∈ n_watchers n) then with_watchees (ldel i) else (λ x : node, x)) x))).
+  assert (Hm3 : ∀ k, m3 !! k = g k <$> t_pids t !! k).
+  { intros k.
+    assert (Hm2 : m2 !! k = (λ x, (if decide (k ∈ n_watchees n) then with_watchers (ldel i) else (λ x : node, x))
+          ((if decide (k ∈ n_watchers n) then with_watchees (ldel i) else (λ x : node, x)) x)) <$> t_pids t !! k).
+    { unfold m2, m1. rewrite !lookup_foldr_alter by (intros; apply with_watchers_ldel_idemp || apply with_watchees_ldel_idemp).
+      repeat case_decide; destruct (t_pids t !! k); done. }
+    unfold m3, g, pb. destruct (n_parent n) as [[p g0]|].
+    - destruct (live_in m2 (p, g0)).
+      + destruct (decide (k = p)) as [->|].
+        * rewrite lookup_alter, Hm2. destruct (decide (Some p = Some p)); [|done]. destruct (t_pids t !! p); done.
+        * rewrite lookup_alter_ne, Hm2 by done. destruct (decide (Some k = Some p)); [congruence|done].
+      + rewrite Hm2. destruct (decide (Some k = None)); done.
+    - rewrite Hm2. destruct (decide (Some k = None)); done. }
+  assert (Hsz : size m3 = size (t_pids t)) by (by apply (size_pointwise _ _ g)).
+  fold m1. fold m2. fold m3.
+  apply (wf_pointwise t g (Some i)); [done| | | | | | | | | |].
+  - intros k. destruct (decide (Some k = Some i)) as [[= ->]|Hne].
+    + apply lookup_delete.
+    + rewrite lookup_delete_ne by congruence. apply Hm3.
+  - rewrite map_size_delete_Some by (rewrite Hm3, Ei; eauto).
+    rewrite Hsz, (wf_count _ W).
+    assert (size (t_pids t) ≠ 0).
+    { intros H0. apply map_size_empty_inv in H0. rewrite H0 in Ei. done. }
+    lia.
+  - intros nm i0 g0 H.
+    assert (t_names t !! nm = Some (i0, g0) ∧ (i0 = i → False)) as [H1 H2]; [|split; [done|congruence]].
+    destruct (t_names t !! n_name n) as [[i' g']|] eqn:En.
+    + destruct (decide (i' = i ∧ g' = n_gen n)) as [[-> ->]|Hnot].
+      * destruct (decide (nm = n_name n)) as [->|]; [by rewrite lookup_delete in H|].
+        rewrite lookup_delete_ne in H by done. split; [done|]. intros ->.
+        destruct (wf_names _ W _ _ _ H) as (n1 & Hn1 & ? & ?). congruence.
+      * split; [done|]. intros ->.
+        destruct (wf_names _ W _ _ _ H) as (n1 & Hn1 & Hg & Hn). rewrite Ei in Hn1. injection Hn1 as <-.
+        subst nm g0. rewrite En in H. injection H as -> ->. by apply Hnot.
+    + split; [done|]. intros ->.
+      destruct (wf_names _ W _ _ _ H) as (n1 & Hn1 & Hg & Hn). rewrite Ei in Hn1. injection Hn1 as <-.
+      subst nm. rewrite En in H. done.
+  - intros r H. destruct (t_root t) as [|r0|] eqn:Er; try done.
+    destruct (decide (r0 = i)); [done|]. injection H as <-. split; [done|congruence].
+  - intros k x. unfold g. repeat case_decide; done.
+  - intros k x y. unfold g. repeat case_decide; setsolve.
+  - intros k x y. unfold g. repeat case_decide; setsolve.
+  - intros k x y Hk Hki [= ->]. split.
+    + intros Hin. assert (i ∈ n_watchers x) as Hin0.
+      { revert Hin. unfold g. repeat case_decide; setsolve. }
+      destruct (wf_watchers _ W _ _ _ Hk Hin0) as (ni & Hni & Hkin). simplify_eq.
+      revert Hin. unfold g. repeat case_decide; setsolve.
+    + intros Hin. assert (i ∈ n_watchees x) as Hin0.
+      { revert Hin. unfold g. repeat case_decide; setsolve. }
+      destruct (wf_watchees _ W _ _ _ Hk Hin0) as (ni & Hni & Hkin). simplify_eq.
+      revert Hin. unfold g. repeat case_decide; setsolve.
+  - intros a na w nw Ha _ _ _ _ Hin. assert (a ≠ i) by congruence.
+    unfold g. repeat case_decide; setsolve.
+  - intros a na e ne Ha _ _ _ _ Hin. assert (a ≠ i) by congruence.
+    unfold g. repeat case_decide; setsolve.
+Qed.
+
+Lemma wf_foldl_delete_one l t : tree_wf t → tree_wf (foldl delete_one t l).
+Proof. revert t. induction l as [|i l IH]; simpl; intros t W; [done|]. apply IH. by apply wf_delete_one. Qed.
+
+Lemma wf_delete_node t i : tree_wf t → tree_wf (delete_node t i).
+Proof. intros W. unfold delete_node. destruct (t_pids t !! i); [|done]. by apply wf_foldl_delete_one. Qed.
+
+Lemma wf_step t o : tree_wf t → tree_wf (step t o).1.
+Proof.
+  intros W. destruct o; simpl.
+  - by apply wf_add_root.
+  - by apply wf_add_node.
+  - by apply wf_add_or_attach.
+  - by apply wf_remove_watcher.
+  - by apply wf_remove_descendant.
+  - by apply wf_add_watcher.
+  - by apply wf_delete_node.
+  - apply wf_reset.
+Qed.
+
+Lemma wf_run_from ops t : tree_wf t → tree_wf (run ops t).
+Proof.
+  revert t. induction ops as [|o ops IH]; intros t W; [done|].
+  unfold run. simpl. apply IH. by apply wf_step.
+Qed.
+
+(* the invariant holds after ANY finite sequence of tree operations *)
+Theorem tree_wf_all_ops ops : tree_wf (run ops empty_tree).
+Proof. apply wf_run_from, wf_empty. Qed.
+
+(* ---- what the invariant means for the Go accessors *)
+Lemma wf_obs_count t : tree_wf t → obs_count t = Z.of_nat (size (t_pids t)).
+Proof. intros W. apply (wf_count _ W). Qed.
+
+Lemma wf_obs_by_name t nm i : tree_wf t → obs_by_name t nm = Some i →
+  obs_registered t i = true ∧ ∃ n, t_pids t !! i = Some n ∧ n_name n = nm.
+Proof.
+  intros W. unfold obs_by_name, obs_registered. destruct (t_names t !! nm) as [[i0 g0]|] eqn:E; simpl; [|done].
+  destruct (live t (i0, g0)); [|done]. intros [= <-].
+  destruct (wf_names _ W _ _ _ E) as (n & Hn & _ & Hnm). split; [|eauto].
+  apply bool_decide_eq_true. eauto.
+Qed.
+
+Lemma wf_obs_watch_inverse t a w : tree_wf t →
+  obs_registered t a = true → w ∈ obs_watchers t a →
+  obs_registered t w = true ∧ a ∈ obs_watchees t w.
+Proof.
+  intros W. unfold obs_registered, obs_watchers, obs_watchees. rewrite !bool_decide_eq_true.
+  intros [na Ha]. rewrite Ha. intros Hw. destruct (wf_watchers _ W _ _ _ Ha Hw) as (nw & Hnw & Hin).
+  rewrite Hnw. eauto.
+Qed.
+
+Lemma wf_obs_watch_inverse' t a e : tree_wf t →
+  obs_registered t a = true → e ∈ obs_watchees t a →
+  obs_registered t e = true ∧ a ∈ obs_watchers t e.
+Proof.
+  intros W. unfold obs_registered, obs_watchers, obs_watchees. rewrite !bool_decide_eq_true.
+  intros [na Ha]. rewrite Ha. intros He. destruct (wf_watchees _ W _ _ _ Ha He) as (ne & Hne & Hin).
+  rewrite Hne. eauto.
+Qed.
+
+(* by construction of the accessors: whatever parent()/children() report is registered *)
+Lemma obs_parent_registered t i p : obs_parent t i = Some p → obs_registered t p = true.
+Proof.
+  unfold obs_parent, obs_registered. destruct (t_pids t !! i) as [n|]; simpl; [|done].
+  destruct (n_parent n) as [[p0 g0]|]; simpl; [|done].
+  unfold live, live_in. simpl. destruct (t_pids t !! p0) eqn:E; [|done].
+  case_bool_decide; [|done]. intros [= <-]. apply bool_decide_eq_true. rewrite E. eauto.
+Qed.
+
+Lemma obs_children_registered t i c : c ∈ obs_children t i → obs_registered t c = true.
+Proof.
+  unfold obs_children, children_in, obs_registered. destruct (t_pids t !! i) as [n|]; [|by intros ?%elem_of_nil].
+  intros ([c0 g0] & -> & Hin)%elem_of_list_fmap. apply elem_of_list_filter in Hin as [Hl _].
+  unfold live_in in Hl. simpl in *. destruct (t_pids t !! c0) eqn:E; [|done].
+  apply bool_decide_eq_true. rewrite ?E. eauto.
+Qed.
+
+(* after deleteNode the node is no longer registered *)
+Lemma delete_one_unregisters t i : t_pids (delete_one t i) !! i = None.
+Proof.
+  unfold delete_one. destruct (t_pids t !! i) eqn:E; [|done]. simpl. apply lookup_delete.
+Qed.
